@@ -32,7 +32,7 @@ open PlasVerif.Generated.GlobalState
 inductive MK | math | display
   deriving DecidableEq, Repr
 
-inductive ArgTy | number | dimen | tok | args | any | optnone | normal | numreg | dimenreg | gluereg
+inductive ArgTy | number | dimen | glue | tok | args | any | optnone | normal | numreg | dimenreg | gluereg
   deriving DecidableEq, Repr
 
 inductive Cls | article | book | report
